@@ -12,6 +12,7 @@ inductive Node where
   | elem (name : Str) (attrs : List (Str × Str)) (kids : List Node)
   | text (t : Str)
   | rawText (t : Str)          -- xsl:text disable-output-escaping="yes"
+  | rtfRawText (t : Str)       -- the same, replayed from a result tree fragment (xsl:copy-of of a variable)
   | comment (t : Str)
   | pi (target data : Str)
 deriving Repr, Inhabited
@@ -147,6 +148,9 @@ def nodeEvents (cd : List Str) : Bool → Node → List Ev
   | _, .elem n a kids => Ev.startElement n a :: (kidsEvents cd (cd.contains n) kids ++ [Ev.endElement n])
   | inCD, .text t => [if inCD then Ev.cdata t else Ev.characters t]
   | _, .rawText t => [Ev.raw t]
+  -- FormatterToSourceTree::charactersRaw stored `<?Xalan raw?>` + the text node; the copy delivers the marker
+  -- PI and then the text through `characters` or — under cdata-section-elements — `cdata`
+  | inCD, .rtfRawText t => [Ev.pi rawMarkerTarget rawMarkerData, if inCD then Ev.cdata t else Ev.characters t]
   | _, .comment t => [Ev.comment t]
   | _, .pi t d => [Ev.pi t d]
 def kidsEvents (cd : List Str) : Bool → List Node → List Ev
@@ -166,6 +170,7 @@ def Node.stringValue : Node → Str
   | .elem _ _ kids => stringValueL kids
   | .text t => t
   | .rawText t => t
+  | .rtfRawText t => t
   | .comment _ => []
   | .pi _ _ => []
 def stringValueL : List Node → Str
